@@ -23,14 +23,14 @@ bounds = c01.bounds
 def plan(tier):
     items = c01.plan(tier)
     for it in items:
-        it['pcap'] = 640 if tier == 'quick' else 4096
+        it['pcap'] = 512 if tier == 'quick' else 4096
         it['none_maxsize'] = 10 if tier == 'quick' else 16
         it['none_maxl'] = 8 if tier == 'quick' else 12
     return items
 
 
 def required_regimes(tier):
-    return (c01.required_regimes(tier) - {'reflect:allowed_raise'}) | {'none:f32', 'none:f64', 'none:finest',
+    return (c01.required_regimes(tier) - {'reflect:allowed_raise'}) | {'variant:N=1', 'variant:C=2', 'none:f32', 'none:f64', 'none:finest',
                                                                       'none:coarser_than_present', 'none:lowpass_longer'}
 
 
@@ -117,6 +117,25 @@ def _run(res, dim, w, mode, shape, cap, item):
             if d is not None:
                 res.violation('synthesis_vs_pywt', cfg, d, tags)
         res.op(out.reshape(P, -1))
+        if P <= 128:
+            # a batch of one and a two-channel pyramid (channel 1 = the basis in reverse order) reproduce the extracted rows
+            try:
+                if dim == 1:
+                    yl, yh = dwt.pyramid_basis_1d([lsh[0]] + [s[0] for s in hsh])
+                    inv = dwt.impl_inv1d
+                else:
+                    yl, yh = dwt.pyramid_basis_2d(lsh, hsh)
+                    inv = dwt.impl_inv2d
+                o1 = inv(w, mode, yl[:1], [h_[:1] for h_ in yh])
+                o2 = inv(w, mode, np.concatenate([yl, yl[::-1]], axis=1), [np.concatenate([h_, h_[::-1]], axis=1) for h_ in yh])
+                res['impl_calls'] += 2
+                res.regime('variant:N=1', 'variant:C=2')
+                e2 = np.stack([out, out[::-1]], axis=1)
+                if o1.shape != (1, 1) + out.shape[1:] or common.maxabs(o1[0, 0] - out[0]) > common.TOL * max(1.0, common.maxabs(out)) or \
+                        o2.shape != e2.shape or common.maxabs(o2 - e2) > common.TOL * max(1.0, common.maxabs(e2)):
+                    res.violation('synthesis_vs_pywt', dict(cfg, variant='N=1 / C=2'), {'kind': 'value_or_shape', 'shapes': [list(o1.shape), list(o2.shape)]}, tags)
+            except Exception as e:
+                res.violation('synthesis_vs_pywt', dict(cfg, variant='N=1 / C=2'), {'kind': 'raise', 'exc': repr(e)[:200]}, tags)
         if J == 2 and shape in ((7,), (5, 3)):
             res.sample({'config': cfg, 'pyramid_coefficients': int(P), 'lowpass_shape': list(lsh),
                         'highpass_shapes': [list(s) for s in hsh], 'output_shape': list(out.shape[1:])})
